@@ -1,13 +1,14 @@
 /-
   Rws.Json — model of `src/json/**` (C19; JSON part of C20), tree AFTER the `fix:` commits of
-  branch slice-C19 (readers propagate the splitter's error; the splitter answers Err for a
-  non-ASCII byte; a leading `-` starts a number; `{}` parses; integral floats keep `.0`).
+  branch slice-C19 (readers propagate the splitter's error; a leading `-` starts a number; `{}`
+  parses; integral floats keep `.0`) and of branch slice-C19b (F24d: the scanners read whole
+  UTF-8 characters; F24f: the nesting counters ignore brackets inside string literals).
 
   `splitIntoVectorOfStrings`  ↔ `RawUnprocessedJSONArray::split_into_vector_of_strings`
-        (src/json/array/mod.rs).  The Rust code reads the text ONE BYTE AT A TIME through a
-        cursor, never looks ahead and never goes back; every `while` loop of it is one
-        constructor of `SSt`, `splitStep` is "what the code does with the byte just read in
-        that loop" and `splitRun` feeds the characters in order.
+        (src/json/array/mod.rs).  The Rust code reads the text ONE CHARACTER AT A TIME through a
+        cursor (`json::read_utf8_char` + `String::from_utf8`), never looks ahead and never goes
+        back; every `while` loop of it is one constructor of `SSt`, `splitStep` is "what the code
+        does with the character just read in that loop" and `splitRun` feeds the characters in order.
   `parseListInt/Bool/String/Null/Float` ↔ `JSONArrayOf*::parse_as_list_*`
   `listIntToJson … ` ↔ `JSONArrayOf*::to_json_from_list_*`, `JSONArrayOfObjects::to_json`
   `JSONProperty.parse` ↔ `JSONProperty::parse` (src/json/property/mod.rs)
@@ -15,17 +16,23 @@
   `parseAsProperties` ↔ `JSON::parse_as_properties` (src/json/object/mod.rs): same scheme,
         states `OSt`, step `objStep`, driver `objRun`, end of input `objEof`.
   `toJsonString` ↔ `JSON::to_json_string`
+  `readUtf8Char`, `readChars` ↔ `json::read_utf8_char` followed by `String::from_utf8` (the byte level
+        of one read, on ARBITRARY bytes), and that read repeated to the end of the input.
 
   Text is `List Char`.  The cursors work on bytes; the model works on characters, which is
-  the same thing because (a) every `read_exact` of one byte is followed by
-  `String::from_utf8` of that byte, which fails — `Err` — exactly when the byte belongs to a
-  non-ASCII character (`isAscii c = false` ⇒ `fail`), (b) `read_until(d)` is only used with
-  ASCII delimiters, which never occur inside a multi-byte character, and the segment it
-  returns is then valid UTF-8, (c) the 3/4-byte reads of `ull`/`rue`/`alse` succeed exactly
-  when the next characters are those letters (anything else — too few bytes, invalid
-  UTF-8, other text — is `Err`), (d) `bytes_read == total_bytes` holds exactly when the
-  cursor is at the end of the text, i.e. when no character is left (`bytes_read` is
-  incremented by the size of every read).
+  the same thing because the argument of both entry points is a Rust `String` (well-formed
+  UTF-8 by construction; the drivers answer `badutf8` for anything else) and
+  (a) every read of a single character is `read_utf8_char` (the first byte announces the length
+  of the sequence, that many bytes are taken) followed by `String::from_utf8` of those bytes:
+  at a character boundary of well-formed UTF-8 this yields exactly the next character and
+  consumes exactly its bytes — `RwsProofs/C19.lean: C19_read_chars` proves it for `readChars`;
+  (b) `read_until(d)` is only used with ASCII delimiters, which never occur inside a multi-byte
+  character, so the cursor stays on a character boundary and the segment it returns is valid UTF-8,
+  (c) the 3/4-byte reads of `ull`/`rue`/`alse` succeed exactly when the next characters are
+  those letters (anything else — too few bytes, a piece of a multi-byte character, other text —
+  is `Err`, and the function returns at once, so the cursor is never used off a boundary),
+  (d) `bytes_read == total_bytes` holds exactly when the cursor is at the end of the text, i.e.
+  when no character is left (`bytes_read` is incremented by the number of bytes of every read).
   Deliberate abstractions:
   * FLOATS ARE OPAQUE TOKENS.  An `f64` is represented by a text accepted by Rust's
     `f64::from_str` (`isRustFloat`, the documented grammar); on the writing side by the text
@@ -33,13 +40,17 @@
     "the token is not `0` / `-0`"; `is_finite` is "the token is not `inf`/`-inf`/`NaN`".
   * error texts are dropped (`err`); the `i32` bracket counters are `Nat` (no overflow below
     2^31 brackets).
-  * `char::is_numeric` is only applied to ASCII characters (others failed before): `isDigit`.
+  * `char::is_numeric` (Unicode categories Nd, Nl, No — since F24d it sees every scalar) is
+    `isNumeric`: `0`..`9` below U+0080, the generated table `Rws.Gen.UnicodeNumeric.ranges`
+    (probed from the toolchain, translator/gens/jsonnum.py; compared with the running std by the
+    op `jnumeric`) above.  `str::parse` and `f64::from_str` only know ASCII digits: `isDigit`.
   Panic sites that remain in the code and are kept in the model:
   `json/array/string/mod.rs:22` (`chars().next().unwrap()` on an empty item) and `:26`
   (`string[1..len-1]` on the one-character item `"`); `RwsProofs/C20Json.lean` proves that no
   item the splitter produces reaches them.
 -/
 import Rws.Prim
+import Rws.Gen.UnicodeNumericTab
 
 namespace Rws.Json
 open Rws
@@ -47,8 +58,6 @@ open Rws
 abbrev Text := List Char
 
 /-! ### character classes (Rust std) -/
-
-def isAscii (c : Char) : Bool := c.toNat < 128
 
 /-- `char::is_whitespace` (Unicode `White_Space`) -/
 def isWs (c : Char) : Bool :=
@@ -61,6 +70,11 @@ def isAsciiControl (c : Char) : Bool := c.toNat < 32 || c.toNat = 127
 
 def isDigit (c : Char) : Bool := 48 ≤ c.toNat && c.toNat ≤ 57
 
+/-- `char::is_numeric`: `'0'..='9' => true, c => c > '\x7f' && unicode::N(c)` -/
+def isNumeric (c : Char) : Bool :=
+  if c.toNat < 128 then isDigit c
+  else Rws.Gen.UnicodeNumeric.ranges.any (fun r => r.1 ≤ c.toNat && c.toNat ≤ r.2)
+
 /-- `str::trim` -/
 def trimStart (s : Text) : Text := s.dropWhile isWs
 def trimEnd (s : Text) : Text := (s.reverse.dropWhile isWs).reverse
@@ -71,6 +85,45 @@ def filterControl (s : Text) : Text := trim (s.filter (fun c => !isAsciiControl 
 
 /-- the test `char != ' ' && char != '\n' && char != '\r' && !char.is_ascii_control()` negated -/
 def isSkip (c : Char) : Bool := c = ' ' || c = '\n' || c = '\r' || isAsciiControl c
+
+/-! ### one character from the byte cursor (`json::read_utf8_char` + `String::from_utf8`) -/
+
+/-- the `match first_byte[0]` of `json::read_utf8_char`: number of bytes the first byte announces -/
+def announcedLen (b : UInt8) : Nat :=
+  if 0xC0 ≤ b && b ≤ 0xDF then 2 else if 0xE0 ≤ b && b ≤ 0xEF then 3 else if 0xF0 ≤ b && b ≤ 0xF7 then 4 else 1
+
+/-- `json::read_utf8_char`: the bytes of the next character as its first byte announces them and
+    the bytes left in the cursor; `none` = a `read_exact` fails (no byte left, or fewer than announced) -/
+def readUtf8CharBytes : List UInt8 → Option (List UInt8 × List UInt8)
+  | [] => none
+  | b :: rest =>
+    if rest.length < announcedLen b - 1 then none
+    else some (b :: rest.take (announcedLen b - 1), rest.drop (announcedLen b - 1))
+
+/-- the read of one character as every single-character site of the scanners does it: `read_utf8_char`, then
+    `String::from_utf8(char_buffer)` — `Ok` exactly when the buffer is the well-formed encoding of one scalar
+    (the lead byte fixes the length of the buffer, so a valid buffer holds exactly one character) -/
+def readUtf8Char (bs : List UInt8) : Option (Char × List UInt8) :=
+  match readUtf8CharBytes bs with
+  | none => none
+  | some (cb, rest) =>
+    match ByteArray.utf8DecodeChar? cb.toByteArray 0 with
+    | some c => if c.utf8Size = cb.length then some (c, rest) else none
+    | none => none
+
+/-- that read repeated until no byte is left (`fuel` = number of bytes: every read takes at least one) -/
+def readCharsFuel : Nat → List UInt8 → Option (List Char)
+  | _, [] => some []
+  | 0, _ :: _ => none
+  | fuel + 1, b :: bs =>
+    match readUtf8Char (b :: bs) with
+    | none => none
+    | some (c, rest) =>
+      match readCharsFuel fuel rest with
+      | some cs => some (c :: cs)
+      | none => none
+
+def readChars (bs : List UInt8) : Option (List Char) := readCharsFuel bs.length bs
 
 /-! ### decimal integers -/
 
@@ -168,6 +221,17 @@ def floatText (tok : Text) : Text :=
 def floatItemText (tok : Text) : Text :=
   if tok = ['0'] || tok = ['-','0'] then ['0','.','0'] else tok
 
+/-! ### the nesting counters of both scanners -/
+
+/-- `is_inside_string` after the character `x`: toggled by a quotation mark that does not follow a
+    backslash (`prev` = last character of the token read so far) -/
+def strFlag (prev : Option Char) (inStr : Bool) (x : Char) : Bool :=
+  if x = '"' && prev != some '\\' then !inStr else inStr
+
+/-- a bracket counter after the character `x` (`inStr` = the flag AFTER `x`): brackets inside a string do not count -/
+def bump (b : Char) (inStr : Bool) (n : Nat) (x : Char) : Nat :=
+  if x = b && !inStr then n + 1 else n
+
 /-! ### array splitter -/
 
 inductive SSt where
@@ -175,8 +239,8 @@ inductive SSt where
   | items                                            -- top of the main loop
   | str (tok : Text)                                 -- "read till non escaped quote" (token reversed)
   | lit (rest : Text) (tok : Text)                   -- `ull` / `rue` / `alse` still to be read
-  | nestA (tok : Text) (opens closes : Nat)          -- nested array
-  | nestO (tok : Text) (opens closes : Nat)          -- nested object
+  | nestA (tok : Text) (opens closes : Nat) (inStr : Bool)   -- nested array
+  | nestO (tok : Text) (opens closes : Nat) (inStr : Bool)   -- nested object
   | num (tok : Text) (point exp minus : Bool)        -- number
   | numWs (tok : Text)                               -- white space after a number
   | after                                            -- after the closing bracket
@@ -190,8 +254,7 @@ inductive SStep where
 /-- what the splitter does with the character `c` just read in state `st`; `last` = it was the
     last one of the text -/
 def splitStep (st : SSt) (c : Char) (last : Bool) : SStep :=
-  if !isAscii c then .fail            -- `read_utf8(char_buffer)?`
-  else match st with
+  match st with
   | .start =>
     if last then .fail                                  -- "not proper start of the json array"
     else if !isWs c && c != '[' then .fail
@@ -203,10 +266,10 @@ def splitStep (st : SSt) (c : Char) (last : Bool) : SStep :=
     else if c = 'n' then .next (.lit ['u','l','l'] ['n'])
     else if c = 't' then .next (.lit ['r','u','e'] ['t'])
     else if c = 'f' then .next (.lit ['a','l','s','e'] ['f'])
-    else if c = '[' then .next (.nestA ['['] 1 0)
-    else if c = '{' then .next (.nestO ['{'] 1 0)
+    else if c = '[' then .next (.nestA ['['] 1 0 false)
+    else if c = '{' then .next (.nestO ['{'] 1 0 false)
     else if c = ',' then .next .items
-    else if isDigit c || c = '-' then .next (.num [c] false false (c = '-'))
+    else if isNumeric c || c = '-' then .next (.num [c] false false (c = '-'))
     else if c = '\r' || c = '\n' || isAsciiControl c then .next .items
     else .fail                                          -- "unknown type"
   | .str tok =>
@@ -216,20 +279,20 @@ def splitStep (st : SSt) (c : Char) (last : Bool) : SStep :=
   | .lit (x :: xs) tok =>
     if c = x then (if xs.isEmpty then .emit (c :: tok).reverse .items else .next (.lit xs (c :: tok)))
     else .fail
-  | .nestA tok o cl =>
-    let o' := if c = '[' then o + 1 else o
-    let cl' := if c = ']' then cl + 1 else cl
-    if o' = cl' then .emit (c :: tok).reverse .items else .next (.nestA (c :: tok) o' cl')
-  | .nestO tok o cl =>
-    let o' := if c = '{' then o + 1 else o
-    let cl' := if c = '}' then cl + 1 else cl
-    if o' = cl' then .emit (c :: tok).reverse .items else .next (.nestO (c :: tok) o' cl')
+  | .nestA tok o cl s =>
+    let s' := strFlag tok.head? s c
+    if bump '[' s' o c = bump ']' s' cl c then .emit (c :: tok).reverse .items
+    else .next (.nestA (c :: tok) (bump '[' s' o c) (bump ']' s' cl c) s')
+  | .nestO tok o cl s =>
+    let s' := strFlag tok.head? s c
+    if bump '{' s' o c = bump '}' s' cl c then .emit (c :: tok).reverse .items
+    else .next (.nestO (c :: tok) (bump '{' s' o c) (bump '}' s' cl c) s')
   | .num tok p e m =>
     if c = '.' && p then .fail
     else if c = 'e' && e then .fail
     else if c = '-' && m then .fail
     else if c = ' ' then .next (.numWs tok)
-    else if isDigit c || c = '.' || c = 'e' || c = '-' then .next (.num (c :: tok) (p || c = '.') (e || c = 'e') m)
+    else if isNumeric c || c = '.' || c = 'e' || c = '-' then .next (.num (c :: tok) (p || c = '.') (e || c = 'e') m)
     else if c = ',' then .emit tok.reverse .items
     else if c = ']' then .emit tok.reverse .after
     else .fail
@@ -434,8 +497,8 @@ inductive OSt where
   | value (kvp : Text)                        -- loop "read until char is not white space"
   | strVal (kvp : Text)                       -- "read till non escaped quote"
   | lit (rest : Text) (kvp : Text)            -- `ull` / `rue` / `alse`
-  | arr (kvp : Text) (opens closes : Nat)
-  | obj (kvp : Text) (opens closes : Nat)
+  | arr (kvp : Text) (opens closes : Nat) (inStr : Bool)
+  | obj (kvp : Text) (opens closes : Nat) (inStr : Bool)
   | num (kvp : Text)
   | tillComma (kvp : Text) (seg : Text)       -- "read till comma" with the check of what was skipped
   | skipComma (kvp : Text)                    -- "attempt to read till comma" (after a number closed by `}`)
@@ -473,46 +536,37 @@ def objStep (st : OSt) (c : Char) (noProps : Bool) : OStep :=
     else .next (.preKey (c :: seg))
   | .key kvp => if c = '"' then .next (.colon (c :: kvp)) else .next (.key (c :: kvp))
   | .colon kvp =>
-    if !isAscii c then .fail
-    else if isSkip c then .next (.colon kvp)
+    if isSkip c then .next (.colon kvp)
     else if c = ':' then .next (.value (c :: kvp))
     else .fail
   | .value kvp =>
-    if !isAscii c then .fail
-    else if isSkip c then .next (.value kvp)
+    if isSkip c then .next (.value kvp)
     else if c = '"' then .next (.strVal (c :: kvp))
     else if c = 'n' then .next (.lit ['u','l','l'] (c :: kvp))
     else if c = 't' then .next (.lit ['r','u','e'] (c :: kvp))
     else if c = 'f' then .next (.lit ['a','l','s','e'] (c :: kvp))
-    else if c = '[' then .next (.arr (c :: kvp) 1 0)
-    else if c = '{' then .next (.obj (c :: kvp) 1 0)
-    else if isDigit c || c = '-' then .next (.num (c :: kvp))
+    else if c = '[' then .next (.arr (c :: kvp) 1 0 false)
+    else if c = '{' then .next (.obj (c :: kvp) 1 0 false)
+    else if isNumeric c || c = '-' then .next (.num (c :: kvp))
     else .fail
   | .strVal kvp =>
-    if !isAscii c then .fail
-    else
-      let notEnd := c != '"' && kvp.head? != some '\\'
-      if notEnd then .next (.strVal (c :: kvp)) else .next (.tillComma (c :: kvp) [])
+    let notEnd := c != '"' && kvp.head? != some '\\'
+    if notEnd then .next (.strVal (c :: kvp)) else .next (.tillComma (c :: kvp) [])
   | .lit [] _ => .fail
   | .lit (x :: xs) kvp =>
     if c = x then (if xs.isEmpty then .next (.tillComma (c :: kvp) []) else .next (.lit xs (c :: kvp)))
     else .fail
-  | .arr kvp o cl =>
-    if !isAscii c then .fail
-    else
-      let o' := if c = '[' then o + 1 else o
-      let cl' := if c = ']' then cl + 1 else cl
-      if o' = cl' then .next (.tillComma (c :: kvp) []) else .next (.arr (c :: kvp) o' cl')
-  | .obj kvp o cl =>
-    if !isAscii c then .fail
-    else
-      let o' := if c = '{' then o + 1 else o
-      let cl' := if c = '}' then cl + 1 else cl
-      if o' = cl' then .next (.tillComma (c :: kvp) []) else .next (.obj (c :: kvp) o' cl')
+  | .arr kvp o cl s =>
+    let s' := strFlag kvp.head? s c
+    if bump '[' s' o c = bump ']' s' cl c then .next (.tillComma (c :: kvp) [])
+    else .next (.arr (c :: kvp) (bump '[' s' o c) (bump ']' s' cl c) s')
+  | .obj kvp o cl s =>
+    let s' := strFlag kvp.head? s c
+    if bump '{' s' o c = bump '}' s' cl c then .next (.tillComma (c :: kvp) [])
+    else .next (.obj (c :: kvp) (bump '{' s' o c) (bump '}' s' cl c) s')
   | .num kvp =>
-    if !isAscii c then .fail
-    else if c = '\r' || c = '\n' || c = ' ' then .next (.num kvp)
-    else if isDigit c || c = '.' || c = 'e' || c = '-' then .next (.num (c :: kvp))
+    if c = '\r' || c = '\n' || c = ' ' then .next (.num kvp)
+    else if isNumeric c || c = '.' || c = 'e' || c = '-' then .next (.num (c :: kvp))
     else if c = '}' then .next (.skipComma kvp)
     else if c = ',' then .pairCont kvp
     else .fail
